@@ -48,7 +48,9 @@ def _block_paths(stmts, cap):
         elif t == "Local":
             sub = [([], [("let", st)], None)]
             if st["init"] is not None and strip_paren(st["init"])["t"] in ("If", "Match", "BlockExpr", "Unsafe"):
-                sub = [(c, ev + [("let", st)], term) for c, ev, term in _expr_paths(st["init"], cap)]
+                # the initialiser's own events are listed; the binding itself follows with an empty initialiser so that nothing is counted twice
+                bound = {**st, "init": {"t": "Tuple", "elems": [], "sp": st["sp"]}, "init_traversed": True}
+                sub = [(c, ev + [("let", bound)], term) for c, ev, term in _expr_paths(st["init"], cap)]
         elif t == "MacroStmt":
             sub = [([], [("macro", st)], None)]
         else:
